@@ -1124,7 +1124,7 @@ class Command(Frame):
                 "both cannot be provided, and neither is OK"
             )
         elif bypass_position is not None:
-            pos = f"{int(bypass_position * 200):02X}"
+            pos = f"{round(bypass_position * 200):02X}"
         elif bypass_mode:
             pos = {"auto": "FF", "off": "00", "on": "C8"}[bypass_mode]
         else:
@@ -1358,7 +1358,7 @@ class Command(Frame):
         payload = (
             "007FFF"
             if modulation_level is None
-            else f"00{int(modulation_level * 200):02X}FF"
+            else f"00{round(modulation_level * 200):02X}FF"
         )
         return cls._from_attrs(I_, Code._3EF0, payload, addr0=dev_id, addr2=dev_id)
 
